@@ -24,7 +24,7 @@ def required_buckets(tier):
     for where in ('container', 'well'):
         for k in ('class:solid', 'class:liquid', 'class:enzyme', 'substance:solid', 'substance:liquid', 'substance:enzyme'):
             req.append(f'C17/{where}/{k}/hit')
-    req += ['C17/container/substance:', 'C17/recipe/container', 'C17/recipe/plate_part', 'C17/recipe/plate_whole']
+    req += ['C17/container/substance:', 'C17/recipe/container', 'C17/recipe/plate_part', 'C17/recipe/plate_whole', 'C17/recipe/remove_chain/plate']
     return req
 
 
